@@ -37,13 +37,15 @@ def outcome(fn):
         return type(ex).__name__
 
 
-def build_alignment(pa, cls, c, units, anns, tuples, attach=True, check=False, order_shuffle=None):
+def build_alignment(pa, cls, c, units, anns, tuples, attach=True, check=False, order_shuffle=None, disorder=None):
     uas = []
     for t in tuples:
         slots = [(anns[a], units[a][i] if i < len(units[a]) else None) for a, i in enumerate(t)]
         if order_shuffle:
             order_shuffle.shuffle(slots)
         uas.append(pa.UnitaryAlignment(slots))
+    if disorder is not None:
+        return cls(uas, c if attach else None, check_validity=check, disorder=disorder)
     return cls(uas, c if attach else None, check_validity=check)
 
 
@@ -83,6 +85,7 @@ def l2(rep, pa, tier, rng):
                 "check(continuum)": outcome(lambda: build_alignment(pa, cls, c, units, anns, tuples, attach=False).check(c)),
                 "constructor(check_validity=True)": outcome(lambda: build_alignment(pa, cls, c, units, anns, tuples, check=True)),
                 "check() with shuffled slots": outcome(lambda: build_alignment(pa, cls, c, units, anns, tuples, order_shuffle=rng).check()),
+                "constructor(check_validity=True, disorder=0.0)": outcome(lambda: build_alignment(pa, cls, c, units, anns, tuples, check=True, disorder=0.0)),
             }
             for how, g in got.items():
                 if g != want:
@@ -104,7 +107,14 @@ def l3(rep, pa, rng, count):
         al = c.get_best_alignment(d)
         tuples = [list(ua.n_tuple) for ua in al.unitary_alignments]
         for _ in range(rng.randint(0, 2)):
-            kind = rng.choice(["drop", "dup_tuple", "dup_unit", "move", "none"])
+            kind = rng.choice(["drop", "dup_tuple", "dup_unit", "move", "none", "reslot", "reslot"])
+            if kind == "reslot":
+                # a unit placed in ANOTHER annotator's slot (swapped with what was there): its own (annotator, unit) goes missing
+                t = rng.choice(tuples)
+                if len(t) >= 2:
+                    i, j = rng.sample(range(len(t)), 2)
+                    if t[i][1] is not None and t[i][1] != t[j][1]:
+                        t[i], t[j] = (t[i][0], t[j][1]), (t[j][0], t[i][1])
             if kind == "drop" and len(tuples) > 1:
                 tuples.pop(rng.randrange(len(tuples)))
             elif kind == "dup_tuple":
@@ -147,7 +157,10 @@ def l3(rep, pa, rng, count):
     for i, r in enumerate(recs):
         bad = set(verdicts.get(i, []))
         spec_ok = ("ObsPartition" not in bad) if r["mode"] == "partition" else ("ObsCover" not in bad)
-        if spec_ok != (lib[i] == "ok") or (lib[i] not in ("ok", "SetPartitionError")):
+        foreign = any(slot[1] == -2 for t in r["tuples"] for slot in t)
+        # with a unit sitting in another annotator's slot the statement only fixes success / failure (the soft check fails with
+        # KeyError there); otherwise the failure must be the set-partition error
+        if spec_ok != (lib[i] == "ok") or (not foreign and lib[i] not in ("ok", "SetPartitionError")):
             rep.violation("check.random." + r["mode"], {"mode": r["mode"], "tuples": r["tuples"], "sizes": r["sizes"],
                                                         "spec_says_valid": spec_ok, "library_outcome": lib[i], "meta": r["_meta"]})
     rep.extra["l3_valid_vs_invalid"] = [sum(1 for x in lib if x == "ok"), sum(1 for x in lib if x != "ok")]
